@@ -24,7 +24,8 @@ MANIFEST = {
             "labels, relocations, error) and the image after flatten/resolve/relocate_to_base are compared with a direct Assembler run on the "
             "original call sequence (programs without edits) and on the specification's linearisation (all programs); the Lean monitor judges "
             "every program. Compiler programs with function nodes are compared with Assembler + emit_prolog/emit_epilog (differential only). "
-            "Not proved: embed_const_pool inside serialize_replays/groups, and the byte equality itself (rests on the assembler).",
+            "embed_const_pool is covered by both theorems (align + bind + data when accepted, nothing when refused). Not proved: the byte "
+            "equality itself (rests on the assembler).",
     "note": "Trusted: Lean kernel; Spec/Builder.lean as the meaning of 'edited sequence'; harness/driver/diff. Not modelled: the assembler "
             "itself (C01-C03), ConstPool layout (C19), passes of the Compiler (the RA pass runs on an empty function list), prev/next pointers "
             "(abstracted to a list; tied by the forward/backward dumps), data type ids 44..199. Byte equality is differential (tested), the "
@@ -558,7 +559,7 @@ def run(res):
         "set_cursor of a linked node) are respected: lines violating them are answered `pre` by both sides",
         "label ids used in operands / bind / embed_label either exist at call time or never exist (an id created later is valid when the "
         "Builder serializes but not when the Assembler is called directly - inherent to deferred emission, excluded)",
-        "model follows /repo with fixes/C08-1..4 applied"]
+        "model follows /repo with fixes/C08-1..4 and C14-12 (embed_const_pool refuses a bound label before aligning) applied"]
     broken = []
     ok, out = vlib.lean_stage(res, PID, MODS)
     if not ok and not res.violations:
